@@ -23,7 +23,7 @@ Record pobs := { o_same : bool; o_reason : reason; o_states : list (option state
             before any Search / Read / Update*; 2 = it does, but it was used before Recovery() had run
             (or Recovery() was never called)
    k_stale: ids its search index lists as Running although the plan rows are terminal, until Recovery() *)
-Record case := { k_t0 : Z; k_t1 : Z; k_maxage : Z; k_recovery : bool;
+Record rcase := { k_t0 : Z; k_t1 : Z; k_maxage : Z; k_recovery : bool;
                  k_store : list plan; k_obs : list pobs; k_vault : nat; k_stale : list N;
                  k_crash : nat; k_t2 : Z; k_t3 : Z }.
 (* k_crash = j > 0: "crash during the close".  A first incarnation ran coercion.New on k_store during
@@ -95,7 +95,7 @@ Definition aged_like (p : plan) (o : pobs) : bool :=
 
 (* p0: the plan before the first incarnation; p: before the (last) incarnation that was observed;
    p': the model's plan after it *)
-Definition plan_code (c : case) (resumed : list N) (p0 p p' : plan) (o : pobs) : nat :=
+Definition plan_code (c : rcase) (resumed : list N) (p0 p p' : plan) (o : pobs) : nat :=
   let seen := norm_states (k_t2 c) (k_t3 c) (map row_state (rows_plan p))
                 (norm_states (k_t0 c) (k_t1 c) (map row_state (rows_plan p0)) (o_states o)) in
   let touched := negb (list_eqb ostate_eqb (map row_state (rows_plan p')) (map row_state (rows_plan p))
@@ -111,7 +111,7 @@ Definition plan_code (c : case) (resumed : list N) (p0 p p' : plan) (o : pobs) :
   else if touched && negb (list_eqb Nat.eqb (o_order o) (seq 0 (length (rows_plan p)))) then 10
   else 0.
 
-Fixpoint first_code (c : case) (resumed : list N) (i : nat) (s0 s s' : list plan) (os : list pobs) : nat * nat :=
+Fixpoint first_code (c : rcase) (resumed : list N) (i : nat) (s0 s s' : list plan) (os : list pobs) : nat * nat :=
   match s0, s, s', os with
   | [], [], [], [] => (0, 0)
   | p0 :: s0, p :: s, p' :: s', o :: os =>
@@ -122,7 +122,7 @@ Fixpoint first_code (c : case) (resumed : list N) (i : nat) (s0 s s' : list plan
   | _, _, _, _ => (6, i)
   end.
 
-Definition model_code (c : case) : nat * nat :=
+Definition model_code (c : rcase) : nat * nat :=
   let impl := negb (Nat.eqb (k_vault c) 0) in
   (* the store the observed incarnation started from *)
   let s1 := match k_crash c with
@@ -157,7 +157,7 @@ Definition head_is_0 (l : list nat) : bool := match l with 0 :: _ => true | _ =>
 
 (*   - crash during the close (k_crash > 0): "nothing left Running" is not demanded of a close that was cut
        short; the plan must still be Failed / ExceedRecovery, never executed, and not written again *)
-Definition mon_plan (c : case) (p : plan) (o : pobs) : bool :=
+Definition mon_plan (c : rcase) (p : plan) (o : pobs) : bool :=
   if negb (k_recovery c) || negb (is_runningb p) then
     unchanged p o && Nat.eqb (o_calls o) 0 && Nat.eqb (o_writes o) 0
   else if is_staleb (k_t0 c) (k_maxage c) p then
@@ -171,7 +171,7 @@ Definition mon_plan (c : case) (p : plan) (o : pobs) : bool :=
     Nat.ltb 0 (o_calls o + o_writes o) && negb (closed_by_recovery p o || aged_like p o)
   else true.
 
-Fixpoint mon_all (c : case) (s : list plan) (os : list pobs) : bool :=
+Fixpoint mon_all (c : rcase) (s : list plan) (os : list pobs) : bool :=
   match s, os with
   | [], [] => true
   | p :: s, o :: os => mon_plan c p o && mon_all c s os
@@ -179,11 +179,26 @@ Fixpoint mon_all (c : case) (s : list plan) (os : list pobs) : bool :=
   end.
 
 (* ... and a Vault that must be recovered before use was recovered before use *)
-Definition monitor (c : case) : bool := mon_all c (k_store c) (k_obs c) && negb (Nat.eqb (k_vault c) 2).
+Definition monitor (c : rcase) : bool := mon_all c (k_store c) (k_obs c) && negb (Nat.eqb (k_vault c) 2).
 
 (* [code; index of the first offending plan; 1 if the property monitor is true on the observation] *)
-Definition check_case (c : case) : list nat :=
+Definition check_rcase (c : rcase) : list nat :=
   let (n, i) := model_code c in [n; i; if monitor c then 1 else 0].
 
-Definition case_ok (c : case) : bool :=
+Definition rcase_ok (c : rcase) : bool :=
   let (n, _) := model_code c in (Nat.eqb n 0 || Nat.eqb n 9) && monitor c.
+
+(* ---- what the harness hands over: one store and the runs made on (fresh copies of) it - one run for an
+   ordinary store, one per crash point j for the family "crash during the close" - so that the store is
+   written out once ---- *)
+Record run := { r_t0 : Z; r_t1 : Z; r_obs : list pobs; r_vault : nat; r_crash : nat; r_t2 : Z; r_t3 : Z }.
+Record case := { w_maxage : Z; w_recovery : bool; w_store : list plan; w_stale : list N; w_runs : list run }.
+
+Definition rcase_of (c : case) (r : run) : rcase :=
+  {| k_t0 := r_t0 r; k_t1 := r_t1 r; k_maxage := w_maxage c; k_recovery := w_recovery c;
+     k_store := w_store c; k_obs := r_obs r; k_vault := r_vault r; k_stale := w_stale c;
+     k_crash := r_crash r; k_t2 := r_t2 r; k_t3 := r_t3 r |}.
+
+(* three numbers per run, in the order of the runs *)
+Definition check_case (c : case) : list nat := flat_map (fun r => check_rcase (rcase_of c r)) (w_runs c).
+Definition case_ok (c : case) : bool := forallb (fun r => rcase_ok (rcase_of c r)) (w_runs c).
